@@ -615,6 +615,21 @@ def _src(val):
     return 'other'
 
 
+def _check(r, clause, cond, detail, where, case, fp=None, nontrivial=True):
+    """EnumResult.check, keeping one witness per (clause, where, fp) and shard: EnumResult stores at most 300
+    violations per shard, and a known finding that fires on every case must not use them up."""
+    if cond or fp is None:
+        return r.check(clause, cond, detail, where, case, fp=fp, nontrivial=nontrivial)
+    seen = r.__dict__.setdefault('_c16_seen', set())
+    key = (clause, where, fp)
+    if key in seen:
+        r.ev(clause, nontrivial)
+        r.info['repeat_witnesses_not_stored'] = r.info.get('repeat_witnesses_not_stored', 0) + 1
+        return False
+    seen.add(key)
+    return r.check(clause, cond, detail, where, case, fp=fp, nontrivial=nontrivial)
+
+
 class Checker(object):
     def __init__(self, r, case, scratch):
         self.r, self.case, self.scratch = r, case, scratch
@@ -658,7 +673,7 @@ class Checker(object):
             clause, shape = 'C16.values_typed', 'error:' + '+'.join(self.case['shape'].get('slots', []))
         detail = 'shape=%s | the documentation gives this file a meaning but circus raised %s: %s (at %s)' % (
             shape, type(exc).__name__, str(exc)[:200].replace('\n', ' '), site)
-        self.r.check(clause, False, detail, where, self.case, fp='%s|%s|%s' % (shape, type(exc).__name__, site))
+        _check(self.r, clause, False, detail, where, self.case, fp='%s|%s|%s' % (shape, type(exc).__name__, site))
 
     @staticmethod
     def _target_of(opt):
@@ -693,7 +708,7 @@ class Checker(object):
             except Exception as e:
                 self.fail_exc('config.get_config', e, all_raw)
                 return True
-            r.check('C16.deterministic', cfg1 == cfg2 and dict(os.environ) == environ,
+            _check(r, 'C16.deterministic', cfg1 == cfg2 and dict(os.environ) == environ,
                     lambda: 'shape=two_reads_differ | first=%r second=%r' % (cfg1, cfg2),
                     'config.get_config', case, fp='nondeterministic')
             self.compare_circus(ref, cfg1, dict(raw).get('circus', []))
@@ -712,14 +727,14 @@ class Checker(object):
             got = cfg.get(k, '<missing>')
             self.observed['circus.' + k] = repr(got)
             clause = self.clause_for(raw.get(k), 'C16.values_typed')
-            self.r.check(clause, _same(kind, exp, got),
+            _check(self.r, clause, _same(kind, exp, got),
                          lambda: 'shape=circus_option:%s/%s | [circus] %s = %r is documented as %s %r, circus holds %r'
                          % (k, _mismatch(kind, exp, got), k, raw.get(k), kind, exp, got),
                          'config.get_config/circus', self.case, fp='circus|%s|%s' % (k, _mismatch(kind, exp, got)))
         for k, exp in ref['circus']['defaults'].items():
             kind = REF.CIRCUS_OPTIONS[k][0]
             got = cfg.get(k, '<missing>')
-            self.r.check('C16.defaults', _same(kind, exp, got),
+            _check(self.r, 'C16.defaults', _same(kind, exp, got),
                          lambda: 'shape=circus_default:%s | documented default of [circus] %s is %r, circus holds %r'
                          % (k, k, exp, got), 'config.get_config/circus', self.case, fp='circus_default|%s' % k)
 
@@ -728,7 +743,7 @@ class Checker(object):
         from circus.watcher import Watcher
         r, case = self.r, self.case
         got_names = sorted(w['name'] for w in cfg['watchers'])
-        r.check('C16.values_typed', got_names == sorted(ref['watchers']),
+        _check(r, 'C16.values_typed', got_names == sorted(ref['watchers']),
                 lambda: 'shape=watcher_set | watcher sections %r, circus has %r' % (sorted(ref['watchers']), got_names),
                 'config.get_config/options', case, fp='watcher_set')
         ref_vars = set()
@@ -766,7 +781,7 @@ class Checker(object):
         clause = self.clause_for(rawtext, default_clause)
         self.observed['%s.%s' % (name, opt)] = repr(got)
         sites = ' defined_in=' + self.defined_in(rawtext) if clause.endswith('refs_expanded') else ''
-        self.r.check(clause, ok,
+        _check(self.r, clause, ok,
                      lambda: 'shape=%s:%s/%s%s | [watcher:%s] %s = %r is documented as %s %r, the watcher holds %r'
                      % (what, self._target_of(opt), _mismatch(kind, exp, got), sites, name, opt, rawtext, kind, exp, got),
                      'config.get_config/options', self.case,
@@ -780,7 +795,7 @@ class Checker(object):
         for opt, val in exp['defaults'].items():
             kind = REF.WATCHER_OPTIONS[opt][0]
             got = wd.get(opt) if opt == 'working_dir' else getattr(w, opt, '<missing>')
-            r.check('C16.defaults', _same(kind, val, got),
+            _check(r, 'C16.defaults', _same(kind, val, got),
                     lambda: 'shape=default:%s | [watcher:%s] has no %s; documented default %r, the watcher holds %r'
                     % (opt, name, opt, val, got), 'config.get_config/options', case, fp='default|%s' % opt)
         # free-form options: "All options found in the configuration file ... are passed in this mapping"
@@ -794,13 +809,13 @@ class Checker(object):
             spelled = 'lower_prefix' if rawkey.startswith('rlimit_') else 'upper_prefix'
             got = got_rl.get(lim, '<not a limit>')
             clause = self.clause_for(wraw[rawkey], 'C16.values_typed')
-            r.check(clause, _same(REF.INT, val, got),
+            _check(r, clause, _same(REF.INT, val, got),
                     lambda: 'shape=rlimit:%s/%s | [watcher:%s] %s = %r should set resource limit %s to %r; '
                     'the watcher has rlimits %r' % (spelled, 'empty' if wraw[rawkey] == '' else 'int', name, rawkey,
                                                     wraw[rawkey], lim.upper(), val, w.rlimits),
                     'config.get_config/options', case, fp='%s|rlimit|%s' % (clause, spelled))
         if not exp['rlimits']:
-            r.check('C16.defaults', not got_rl, 'shape=default:rlimits | no rlimit_ option, watcher has %r' % got_rl,
+            _check(r, 'C16.defaults', not got_rl, 'shape=default:rlimits | no rlimit_ option, watcher has %r' % got_rl,
                     'config.get_config/options', case, fp='default|rlimits')
         # streams
         for chan in ('stdout_stream', 'stderr_stream'):
@@ -813,12 +828,12 @@ class Checker(object):
                 cls = conf.get('class')
                 ok = got_conf == conf and (cls is None or type(stream).__name__ == cls.rsplit('.', 1)[-1])
                 self.observed['%s.%s' % (name, chan)] = repr(sorted(got_conf.items()))
-                r.check(clause, ok,
+                _check(r, clause, ok,
                         lambda: 'shape=stream:%s | [watcher:%s] %s.* options %r; the watcher got %r -> %r'
                         % (chan, name, chan, conf, got_conf, type(stream).__name__),
                         'config.get_config/options', case, fp='%s|stream|%s' % (clause, chan))
             else:
-                r.check('C16.defaults', not got_conf and getattr(w, chan) is None,
+                _check(r, 'C16.defaults', not got_conf and getattr(w, chan) is None,
                         'shape=default:%s | no %s.* option, watcher has %r' % (chan, chan, got_conf),
                         'config.get_config/options', case, fp='default|' + chan)
         # hooks
@@ -828,13 +843,13 @@ class Checker(object):
             got_fn = w.hooks.get(hook)
             got_ignore = hook in w.ignore_hook_failure
             self.observed['%s.hooks.%s' % (name, hook)] = repr((getattr(got_fn, '__name__', got_fn), got_ignore))
-            r.check(clause, got_fn is _resolve(fn) and got_ignore == ignore,
+            _check(r, clause, got_fn is _resolve(fn) and got_ignore == ignore,
                     lambda: 'shape=hook:%s | [watcher:%s] hooks.%s = %r means callable %s, ignore errors=%r; '
                     'the watcher holds %r, ignore errors=%r' % ('callable' if got_fn is not _resolve(fn) else 'flag',
                                                              name, hook, rawtext, fn, ignore, got_fn, got_ignore),
                     'config.get_config/options', case, fp='%s|hook|%s' % (clause, hook))
         if not exp['hooks']:
-            r.check('C16.defaults', not w.hooks, 'shape=default:hooks | no hooks.* option, watcher has %r' % w.hooks,
+            _check(r, 'C16.defaults', not w.hooks, 'shape=default:hooks | no hooks.* option, watcher has %r' % w.hooks,
                     'config.get_config/options', case, fp='default|hooks')
 
     def compare_env(self, name, exp, w, ref_vars):
@@ -848,7 +863,7 @@ class Checker(object):
         self.observed['%s.env' % name] = repr(sorted(got.items()))
         # a variable nobody wrote
         extra = sorted(k for k in got if k not in want and k not in skip)
-        r.check('C16.env_precedence', not extra,
+        _check(r, 'C16.env_precedence', not extra,
                 lambda: 'shape=extra_var:%s | [watcher:%s] workers get variable(s) %r that no section and not '
                 'os.environ(copy_env=%r) defines: %r' % (','.join(extra), name, extra, exp['written'].get('copy_env', False),
                                                            dict((k, got[k]) for k in extra)),
@@ -866,7 +881,7 @@ class Checker(object):
         def describe(keys):
             return '; '.join('%s: documented %r (from %s), workers get %r (from %s)'
                              % (k, want[k], _src(want[k]), got.get(k), _src(got.get(k))) for k in keys)
-        r.check('C16.env_precedence', not plain,
+        _check(r, 'C16.env_precedence', not plain,
                 lambda: 'shape=env_value:%s | [watcher:%s] copy_env=%r: %s'
                 % ('+'.join('%s<-%s' % (_src(want[k]).split('#')[0], _src(got.get(k)).split('#')[0]) for k in plain),
                    name, copy_env, describe(plain)),
@@ -875,7 +890,7 @@ class Checker(object):
                                                 for k in plain))) + '|copy_env=%r' % copy_env,
                 nontrivial=layered)
         if ref_vars & set(want):
-            r.check('C16.refs_expanded', not refd,
+            _check(r, 'C16.refs_expanded', not refd,
                     lambda: 'shape=ref_in_env_value:%s | [watcher:%s] %s'
                     % ('+'.join(sorted(set(self._env_section_of(k) for k in refd))), name, describe(refd)),
                     'config.get_config/env', case,
@@ -900,7 +915,7 @@ class Checker(object):
             sraw = dict(raw['socket:' + name])
             sd = by.get(name)
             if sd is None:
-                r.check('C16.values_typed', False, 'shape=socket_missing | [socket:%s] not returned' % name,
+                _check(r, 'C16.values_typed', False, 'shape=socket_missing | [socket:%s] not returned' % name,
                         'config.get_config/sockets', case, fp='socket_missing')
                 continue
             try:
@@ -931,7 +946,7 @@ class Checker(object):
                         ok = g in ('localhost', '127.0.0.1', '::1')
                     clause = self.clause_for(sraw.get(k), clause0)
                     self.observed['socket.%s.%s' % (name, k)] = repr(g)
-                    r.check(clause, ok,
+                    _check(r, clause, ok,
                             lambda: 'shape=socket_%s:%s/%s | [socket:%s] %s = %r is documented as %s %r, the socket holds %r'
                             % ('option' if part == 'written' else 'default', k, _mismatch(kind, val, g), name, k,
                                sraw.get(k), kind, val, g),
@@ -947,7 +962,7 @@ class Checker(object):
                 got = None if pd is None else pd.get(k, '<missing>')
                 clause = self.clause_for(praw.get(k), 'C16.values_typed')
                 self.observed['plugin.%s.%s' % (name, k)] = repr(got)
-                r.check(clause, got is not None and str(got) == val,
+                _check(r, clause, got is not None and str(got) == val,
                         lambda: 'shape=plugin_option:%s | [plugin:%s] %s = %r means %r, the plugin gets %r'
                         % (k, name, k, praw.get(k), val, got), 'config.get_config/plugins', case,
                         fp='%s|plugin|%s' % (clause, k), nontrivial=REF.has_reference(praw.get(k, '')) or clause.endswith('typed'))
